@@ -22,7 +22,7 @@
    (reachable_clean: there every stored file is published); they need no assumption on file names. *)
 From Coq Require Import ZArith NArith List Bool Permutation.
 Require Import DS.Model.HintPrim DS.Gen.GenHint DS.Gen.GenHintPins DS.Model.Hint DS.Model.HintStore.
-Require Import DS.Proofs.HintProofs DS.Proofs.HintStoreProofs DS.Proofs.HintLeftoverProofs.
+Require Import DS.Proofs.HintProofs DS.Proofs.HintStoreProofs DS.Proofs.HintLeftoverProofs DS.Proofs.HintUnusableProofs.
 Import ListNotations.
 Open Scope N_scope.
 
@@ -139,25 +139,27 @@ Proof. exact never_uncommitted_full_refuted. Qed.
 Print Assumptions C10_never_uncommitted_full_refuted.
 
 (* ... and not only in that witness: in EVERY store reachable with leftovers, a never-published (or any) file U that
-   outranks the latest published L -- higher version, or the same version and a newer mtime -- makes a lost or
-   unparseable pointer resolve, in every listing order, to a NEVER-PUBLISHED file that outranks L. *)
+   outranks the latest published L -- higher version, or the same version and a newer mtime -- makes EVERY pointer
+   the code cannot use (Model/HintStore.v `unusable`: no pointer file, undecodable / blank / unparseable content, OR
+   content that parses and names a file that is not stored) resolve, in every listing order, to a NEVER-PUBLISHED
+   file that outranks L. *)
 Theorem C10_leftover_surfaces : forall (st : store) (L U : mfile) (p : option (option (list cp))) (l : list mfile),
-  reachable_lv st -> glatest st = Some L -> In U (files st) -> above U L -> read_hint p = PRet None ->
+  reachable_lv st -> glatest st = Some L -> In U (files st) -> above U L -> unusable p (files st) ->
   Permutation l (files st) ->
   exists r, In r (files st) /\ fcom r = false /\ above r L
             /\ resolve p (map entry_of l) = RRet (Some (fver r, fname r)).
-Proof. exact leftover_surfaces. Qed.
+Proof. exact leftover_surfaces_unusable. Qed.
 Print Assumptions C10_leftover_surfaces.
 
-(* Exactly when recovery is safe, for ANY directory of metadata files with distinct names (reachable or not) and a
-   lost or unparseable pointer: recovery yields L in EVERY listing order if and only if every other file has a
+(* Exactly when recovery is safe, for ANY directory of metadata files with distinct names (reachable or not) and ANY
+   pointer the code cannot use (lost, unparseable, or naming a file that is not stored): recovery yields L in EVERY listing order if and only if every other file has a
    lower version, or the same version and a strictly older mtime.  (With an equal mtime the first one listed wins:
    Proofs/HintStoreProofs.v tiebreak_equal_mtime_first_listed.) *)
 Theorem C10_recovery_safe_iff : forall (fs : list mfile) (L : mfile) (p : option (option (list cp))),
-  Forall wf_file fs -> names_unique fs -> In L fs -> read_hint p = PRet None ->
+  Forall wf_file fs -> names_unique fs -> In L fs -> unusable p fs ->
   ((forall l, Permutation l fs -> resolve p (map entry_of l) = RRet (Some (fver L, fname L)))
    <-> others_below fs L).
-Proof. exact recovery_safe_iff. Qed.
+Proof. exact recovery_safe_iff_unusable. Qed.
 Print Assumptions C10_recovery_safe_iff.
 
 (* What _recover_version_from_files computes, exactly: the FIRST LISTED file among those of the highest
@@ -326,4 +328,34 @@ Proof.
                     (files (run empty_store ex_leftover_history))) by (vm_compute; repeat (first [left; reflexivity|right])).
     vm_compute in HU. specialize (Hlb _ HU eq_refl). vm_compute in Hlb.
     destruct Hlb as [H|[H _]]; discriminate H.
+Qed.
+
+(* Non-vacuity of `unusable` beyond the old hypothesis (read_hint p = PRet None): in the final store of
+   ex_leftover_history a pointer holding the well-formed name v9-99999999.metadata.json, and one holding the legacy
+   number 7, PARSE (read_hint returns a version and a name) and name no stored file; both are unusable, both resolve
+   by the scan -- to the never-published version 4; while the store's own pointer (naming the stored v3-44444444) is
+   NOT unusable and is trusted. *)
+Example C10_nonvacuous_unusable :
+  let st := run empty_store ex_leftover_history in
+  let dangling := Some (Some (render_name 9 (wid 9))) in
+  let legacy := Some (Some (lit [55])) in
+  read_hint dangling = PRet (Some (9, render_name 9 (wid 9))) /\ unusable dangling (files st)
+  /\ resolve dangling (listing st) = RRet (Some (4, render_name 4 (wid 5)))
+  /\ (exists nm, read_hint legacy = PRet (Some (7, nm))) /\ unusable legacy (files st)
+  /\ resolve legacy (listing st) = RRet (Some (4, render_name 4 (wid 5)))
+  /\ unusable None (files st) /\ unusable (Some None) (files st)
+  /\ ~ unusable (ptr st) (files st)
+  /\ resolve (ptr st) (listing st) = RRet (Some (3, render_name 3 (wid 4))).
+Proof.
+  cbv zeta.
+  split; [vm_compute; reflexivity|].
+  split; [right; eexists; eexists; split; vm_compute; reflexivity|].
+  split; [vm_compute; reflexivity|].
+  split; [eexists; vm_compute; reflexivity|].
+  split; [right; eexists; eexists; split; vm_compute; reflexivity|].
+  split; [vm_compute; reflexivity|].
+  split; [left; reflexivity|]. split; [left; reflexivity|].
+  split; [|vm_compute; reflexivity].
+  intros [H|[v [name [H Hex]]]]; [vm_compute in H; discriminate H|].
+  vm_compute in H. inversion H; subst v name. clear H. vm_compute in Hex. discriminate Hex.
 Qed.
